@@ -103,7 +103,8 @@ IsDigit(c) == c >= 48 /\ c <= 57
 IsCanonicalIndex(tok) == /\ Len(tok) >= 1 /\ \A i \in 1..Len(tok) : IsDigit(tok[i])
                          /\ (Len(tok) > 1 => tok[1] # 48)
 RECURSIVE ToNat(_)
-ToNat(tok) == IF tok = <<>> THEN 0 ELSE 10 * ToNat(SubSeq(tok, 1, Len(tok) - 1)) + (tok[Len(tok)] - 48)
+\* (TLC integers are 32-bit: a token of ten digits or more stands for "beyond every array of these universes")
+ToNat(tok) == IF Len(tok) > 9 THEN 1000000000 ELSE IF tok = <<>> THEN 0 ELSE 10 * ToNat(SubSeq(tok, 1, Len(tok) - 1)) + (tok[Len(tok)] - 48)
 
 \* ---- small universes ------------------------------------------------------
 \* all sequences over S of length 0..n
